@@ -30,7 +30,7 @@ PROPS = {
     'C16': {'harnesses': [('c16_ring', 1.0)]},
     'C17': {'harnesses': [('c17_workq', 1.0)]},
     'C18': {'harnesses': [('c18_spin', 1.0)]},
-    'C19': {'harnesses': [('c19_ctx', 0.6), ('c01_mixed', 0.4)]},
+    'C19': {'harnesses': [('c19_ctx', 0.35), ('c19_ctx_mmap', 0.15), ('c19_ctx_uctx', 0.15), ('c01_mixed', 0.35)]},
     'C20': {'harnesses': [('c20_dwcas', 0.6), ('c20_msignal', 0.4)]},
 }
 
